@@ -177,4 +177,31 @@ def fsarray (md : Nat) (strings : List Operand) (width : Option Nat) (atts : Att
     | .error e => .error e
     | .ok rows => .ok { arr with rows := rows }
 
+/-! ### BaseWindow.array_from_text_rc (window.py) -/
+
+/-- The `for c in msg` loop of `array_from_text_rc`; running variables `arr`, `i`.
+    `c in "\r\n"` is true for CR and for LF (each one jumps; "\r\n" therefore jumps twice and leaves a blank row).
+    `i // columns` is only evaluated when `i < rows * columns`, hence `columns > 0`: no ZeroDivisionError for
+    non-negative `rows`, `columns` (with `columns = 0` the first character returns the empty array).
+    An exception of `arr[...] = [fmtstr(c)]` propagates. -/
+def arrayFromTextLoop (md rows columns : Nat) : FSArr → Nat → Text → Except PyErr FSArr
+  | arr, _, [] => .ok arr
+  | arr, i, c :: rest =>
+    if i ≥ rows * columns then .ok arr
+    else if c = '\r' ∨ c = '\n' then
+      arrayFromTextLoop md rows columns arr (((i / columns) + 1) * columns - 1 + 1) rest
+    else
+      match (Operand.str [c]).toFmt md with                  -- fmtstr(c)
+      | .error e => .error e
+      | .ok f =>
+        match arr.setRegion md (.int ((i / arr.numColumns : Nat) : Int)) (.int ((i % arr.numColumns : Nat) : Int))
+            ⟨false, [.fmt f]⟩ with
+        | (_, .error e) => .error e
+        | (arr', .ok ()) => arrayFromTextLoop md rows columns arr' (i + 1) rest
+
+/-- `BaseWindow.array_from_text_rc(msg, rows, columns)` (`array_from_text(msg)` is the same with the terminal's
+    height and width). -/
+def arrayFromTextRc (md : Nat) (msg : Text) (rows columns : Nat) : Except PyErr FSArr :=
+  arrayFromTextLoop md rows columns (FSArr.init 0 columns {}) 0 msg
+
 end Curtsies.FSArray
